@@ -18,7 +18,9 @@ const T0: u64 = 1_000_000;
 /// Three keys per shard count: ka,kb share a shard and kc does not (string route); for ka the
 /// string route and the bytes route (fast paths) differ if any such key exists.
 fn pick_keys(n: usize) -> (Vec<String>, serde_json::Value) {
-    let cands: Vec<String> = (0..4000).map(|i| format!("key{i}")).collect();
+    // plain names first, then names with a Redis-Cluster style hash tag: if the two routing functions ever disagree on what part
+    // of a name they hash, such a name is where it shows
+    let cands: Vec<String> = (0..4000).map(|i| format!("key{i}")).chain((0..400).map(|i| format!("{{user:{i}}}:visits"))).chain((0..100).map(|i| format!("a{{t{i}}}b"))).collect();
     let split = |k: &str| hash_key(k, n) != hash_key_bytes(k.as_bytes(), n);
     let ka = cands.iter().find(|k| split(k)).cloned().unwrap_or_else(|| cands[0].clone());
     let kb = cands
